@@ -8,6 +8,7 @@ import Exmex.Spec.Split
 import Exmex.Proofs.FlattenDefs
 import Exmex.Proofs.ReduceSplitAux
 namespace Exmex
+open ReduceSplitAux
 
 theorem reduceChain_eq_splitEval_aux {α : Type} (bin : Nat → α → α → α) (prio : Nat → Int) :
     ∀ (n : Nat) (vs : List α) (os : List Nat), os.length = n → vs.length = n + 1 →
